@@ -10,6 +10,7 @@ def showIqOut : Out → String
   | .appEntity id => s!"entity:{id}"
   | .ordinary id => s!"ordinary:{id}"
   | .swallowed id => s!"swallowed:{id}"
+  | .pong id => s!"pong:{id}"
 
 def iqStep (s : St) : List String → St × String
   | ["reset"] => (init, "ok")
@@ -37,6 +38,10 @@ def iqStep (s : St) : List String → St × String
   | ["deliver", id, res] =>
     match id.toNat? with
     | some id => let r := step s (.deliver id (res == "1")); (r.1, ",".intercalate (r.2.map showIqOut))
+    | none => (s, "bad-op")
+  | ["serverreq", id] =>
+    match id.toNat? with
+    | some id => let r := step s (.serverReq id Yow.Gen.serverRequestConsumes); (r.1, ",".intercalate (r.2.map showIqOut))
     | none => (s, "bad-op")
   | _ => (s, "bad-op")
 
